@@ -987,6 +987,10 @@ fn gen_y_cls(c: &mut Case, x: &Mat) -> (Vec<f64>, &'static str) {
     let k = c.rng.us(2, 5);
     let labels: Vec<f64> = if c.rng.bool(0.2) {
         (0..k).map(|i| i as f64).collect()
+    } else if c.rng.bool(0.2) {
+        let (v, name) = scverif::gen::tricky_labels(&mut c.rng, k);
+        c.bucket(&format!("labels:{}", name));
+        v
     } else {
         let mut pool = LABEL_POOL.to_vec();
         c.rng.shuffle(&mut pool);
